@@ -1,12 +1,48 @@
 import BufModel.Parallel
+import BufModel.Filter
+import BufModel.Targeting
 import Driver.Util
 /-
   Line protocol for C02:
     par <cancelOnFailure 0|1> <fails bits|-> <seesCancel bits|->   -> 1 (error) | 0 (nil)
     perr <fails bits|-> <completed job indices csv|-> <stopAt|->   -> the combined error's items, e.g. j0,j2,ctx | -
+    pwait <parallelism> <events csv|->    events: d<i> (job i started)  f<i> (job i finished)  r (Parallelize returned)
+        -> ret=<0|1>|running=<csv|->|finished=<sorted csv|->      (the machine `prun`: `r` is enabled only when nothing runs)
+    rdep <file id> <old dependency ids csv|-> <required import ids csv|->  (filter family)
+         ids = rank of the path in Go string order; `required` = closure.imports[file], a Go MAP:
+         the harness hands its keys over in a scrambled order
+         -> the new dependency list (remapDependencies as coded: kept entries in their old order,
+            then the ones gained through public imports ascending), csv | -
+    twalk <module files, hex paths csv> <target paths hex csv|-> <exclude paths hex csv|->  (overlap family)
+         -> walk=<files in the order moduleReadBucket.WalkFileInfos(only target files) reports them>|ls=<sorted target list | err/class>
 -/
 namespace Driver.C02
 open BufModel.Parallel Driver
+
+def natCsv (s : String) : Option (List Nat) :=
+  if s = "-" then some [] else (s.splitOn ",").mapM String.toNat?
+
+def showNats (l : List Nat) : String :=
+  if l.isEmpty then "-" else ",".intercalate (l.map toString)
+
+def hexCsv (s : String) : Option (List BufModel.Path.Str) :=
+  if s = "-" then some [] else (s.splitOn ",").mapM fun h => (hexDecode h).map String.toList
+
+def showPaths (l : List BufModel.Path.Str) : String :=
+  if l.isEmpty then "-" else ",".intercalate (l.map fun p => enc (String.ofList p))
+
+/-- `remapDependencies` of one file: the closure state holds exactly the import edges of `f`. -/
+def rdep (f : Nat) (deps req : List Nat) : List Nat :=
+  let st : BufModel.Filter.St := { edges := req.map fun r => (f, r) }
+  let file : BufModel.Filter.File :=
+    { id := f, pkg := 0, isImport := false, deps := deps.map fun d => ⟨d, false⟩, types := [], msgs := [], enums := [],
+      svcs := [], exts := [], opts := [], locs := [] }
+  (BufModel.Filter.remapDeps st file).1.map (·.file)
+
+/-- one targeted local module with the given files, --path and --exclude-path lists. -/
+def twalkWs (files paths excludes : List BufModel.Path.Str) : BufModel.Targeting.TWS :=
+  { ws := { mods := [{ files := files.map fun p => { path := p, imports := [] }, isTarget := true, isLocal := true }], wkt := [] },
+    cfgs := [{ paths := paths, excludes := excludes }] }
 
 def bits (s : String) : List Bool := if s = "-" then [] else s.toList.map (· == '1')
 
@@ -29,6 +65,36 @@ def handle : List String → String
       ",".intercalate (items.map fun
         | .job i => "j" ++ toString i
         | .ctx => "ctx")
+  | ["pwait", ps, es] =>
+    let evs : Option (List PEv) :=
+      if es = "-" then some [] else
+      (es.splitOn ",").mapM fun t =>
+        match t.toList with
+        | ['r'] => some .ret
+        | 'd' :: rest => (String.ofList rest).toNat?.map .start
+        | 'f' :: rest => (String.ofList rest).toNat?.map .finish
+        | _ => none
+    match ps.toNat?, evs with
+    | some par, some evs =>
+      let st := prun par PSt.init evs
+      let csv (l : List Nat) : String := if l.isEmpty then "-" else ",".intercalate (l.map toString)
+      "ret=" ++ (if st.returned then "1" else "0") ++ "|running=" ++ csv (st.running.mergeSort (fun a b => decide (a ≤ b))) ++
+        "|finished=" ++ csv (st.finished.mergeSort (fun a b => decide (a ≤ b)))
+    | _, _ => "bad-op"
+  | ["rdep", f, ds, rs] =>
+    match f.toNat?, natCsv ds, natCsv rs with
+    | some f, some ds, some rs => showNats (rdep f ds rs)
+    | _, _, _ => "bad-op"
+  | ["twalk", fs, ps, es] =>
+    match hexCsv fs, hexCsv ps, hexCsv es with
+    | some fs, some ps, some es =>
+      let t := twalkWs fs ps es
+      let walk := (BufModel.Targeting.moduleTargetFiles t 0).1.map (·.path)
+      let ls := match BufModel.Targeting.targetList t with
+        | .ok l => showPaths l
+        | .error e => "err/" ++ e.tag
+      "walk=" ++ showPaths walk ++ "|ls=" ++ ls
+    | _, _, _ => "bad-op"
   | _ => "bad-op"
 
 def run : IO Unit := runLines handle
